@@ -352,7 +352,7 @@ def run(ctx):
     ctx.note("enumerated_cases", done)
     if not ctx.quick:
         ctx.exhaustive = done == len(mine)
-    ctx.explore(case_st(), lambda c: execute(ctx, c), ctx.scale(150, 1500))
+    ctx.explore(case_st(), lambda c: execute(ctx, c), ctx.scale(250, 1500))
 
 
 def replay(ctx, case):
